@@ -85,9 +85,9 @@ def plan(tier, seed):
     finally:
         shutil.rmtree(d, ignore_errors=True)
     specs = [{"kind": "seq", "seed": seed, "rep": i} for i in range(3 if tier == "quick" else 20)]
-    reps = 5 if tier == "quick" else 50
+    reps = 4 if tier == "quick" else 20
     for i in range(reps):
-        specs.append({"kind": "conc", "flavour": "tsan", "seed": seed, "rep": i, "threads": [8, 12, 16][i % 3], "calls": 100 if tier == "quick" else 400})
+        specs.append({"kind": "conc", "flavour": "tsan", "seed": seed, "rep": i, "threads": [8, 12, 16][i % 3], "calls": 100 if tier == "quick" else 200})
     for i in range(2 if tier == "quick" else 10):
         specs.append({"kind": "conc", "flavour": "asan", "seed": seed, "rep": 100 + i, "threads": 8, "calls": 100})
     return specs
